@@ -1,5 +1,6 @@
 import CCT.Props.C07
 import CCT.Props.C09
+import CCT.Lemmas.CanonInv3
 /-!
 # C08 — persisting metadata never changes its trust status
 
@@ -69,5 +70,35 @@ theorem add_signature_keeps_counting (C : CryptoFns) (gpg : Bool) (auth : List P
   obtain ⟨sig, hm, hc⟩ := hall k hk
   simp only [List.mem_filter, decide_eq_true_eq] at hm
   exact ⟨sig, mem_dictSet_of_mem_ne _ _ _ _ hm.1 hm.2, hc⟩
+
+-- verdicts under persistence (Lemmas/CanonInv*.lean) --------------------------------------------------------------------
+
+/-- **every verification verdict is the same before and after a write/load cycle**: the value loaded back from the file the library wrote
+gets the same verdict from all three verifiers as the value in memory (all arguments well-formed JSON values) -/
+theorem reload_preserves_verdicts (C : CryptoFns) (env trusted : J) (he : env.WF) (ht : trusted.WF) :
+    ∃ env' trusted', loadBytes (ser env) = some env' ∧ loadBytes (ser trusted) = some trusted' ∧
+      (∀ keys thr gpg, verifySignableJ C env' keys thr gpg = verifySignableJ C env keys thr gpg) ∧
+      (∀ name gpg, verifyDelegationJ C name env' trusted' gpg = verifyDelegationJ C name env trusted gpg) ∧
+      verifyRootJ C trusted' env' = verifyRootJ C trusted env :=
+  ⟨canon env, canon trusted, load_write env he, load_write trusted ht,
+    fun keys thr gpg => verifySignable_canon C env keys thr gpg he,
+    fun name gpg => verifyDelegation_canon C name env trusted gpg he ht,
+    verifyRoot_canon C trusted env ht he⟩
+
+/-- … and after any number of such cycles -/
+theorem cycles_preserve_verdicts (C : CryptoFns) : ∀ (n : Nat) (env : J), env.WF → ∀ keys thr gpg,
+    verifySignableJ C (cycles n env) keys thr gpg = verifySignableJ C env keys thr gpg
+  | 0, _, _, _, _, _ => rfl
+  | n + 1, env, he, keys, thr, gpg => by
+    simp only [cycles]
+    rw [cycles_preserve_verdicts C n (canon env) (canon_wf env he), verifySignable_canon C env keys thr gpg he]
+
+/-- reloading only the trusted side (what a client does with its cached root) does not change the verdict on an offer -/
+theorem reload_trusted_only (C : CryptoFns) (t u : J) (ht : t.WF) (hu : u.WF) : verifyRootJ C (canon t) u = verifyRootJ C t u := by
+  have a := verifyRoot_canon C t u ht hu
+  have b := verifyRoot_canon C (canon t) u (canon_wf t ht) hu
+  rw [canon_idem t ht] at b
+  rw [← b, a]
+
 
 end CCT.C08
